@@ -113,7 +113,13 @@ def main(tier_):
                 if quick and procop and cls == "proc":
                     errs = [CATALOGUE[(ci_ + j) % len(CATALOGUE)]]
                 else:
-                    errs = rnd.sample(CATALOGUE, 2) if quick and not (nr in WORK and cls == "tree") else CATALOGUE
+                    if nr in WORK and cls == "tree":
+                        errs = CATALOGUE
+                    elif quick:
+                        errs = rnd.sample(CATALOGUE, 2)
+                    else:
+                        # thorough: every site, five errnos of the catalogue rotating with the site (the whole catalogue at the work syscall)
+                        errs = [CATALOGUE[(ci_ + q) % len(CATALOGUE)] for q in range(5)]
                 errs = list(dict.fromkeys(errs))
                 for en in errs:
                     c = copy.deepcopy(bc)
